@@ -90,7 +90,7 @@ func genCase(r *lib.Rng, maxOps int) *Case {
 				open = false
 			}
 		case x < 14:
-			if open || r.Chance(30) { // sometimes Commit/Rollback without Begin
+			if (open && r.Bool()) || (!open && r.Chance(30)) { // sometimes Commit/Rollback without Begin
 				c.Ops = append(c.Ops, Op{Kind: lib.Pick(r, []string{"commit", "rollback"})})
 				open = false
 			}
